@@ -351,7 +351,18 @@ fn child(case: &C13Case, fd: i32) {
         for _ in 0..5 {
             unsafe { libc::raise(SIG) };
         }
+        // somebody else registers a self-pipe on the same signal in the meantime; the stale id must
+        // stay dead and must not take the newcomer with it
+        let third = make_pair(kind % 4).and_then(|(r3, w3)| register(case.raw, SIG, w3).ok().map(|id3| (r3, w3, id3)));
         let un2 = id.map_or(false, signal_hook::low_level::unregister);
+        if let Some((r3, w3, id3)) = third {
+            let open3 = fd_valid(w3);
+            drain(r3, kind % 4);
+            unsafe { libc::raise(SIG) };
+            let g3 = drain(r3, kind % 4);
+            let un3 = signal_hook::low_level::unregister(id3);
+            emit(fd, &json!({"k": "newcomer", "open": open3, "x": g3.iter().filter(|b| **b == b'X').count(), "unregister": un3}));
+        }
         let valid = fd_valid(p[0]) && fd_valid(p[1]);
         set_nonblock(p[0]);
         let mut b = [0u8; 16];
@@ -555,6 +566,11 @@ pub fn run_probe(case: &C13Case) -> CaseReport {
         }
     }
     let shared_any = recs.iter().any(|r| r["k"] == "burst" && r["shared"] == true) || recs.iter().any(|r| r["k"] == "unregistered" && r["sibling_nonblock"].is_boolean());
+    if let Some(nc) = recs.iter().find(|r| r["k"] == "newcomer") {
+        if nc["open"] != true || nc["x"].as_u64().unwrap_or(0) != 1 || nc["unregister"] != true {
+            rep.viol("C13/stale-id-hit", format!("a self-pipe registered after another one had been removed was affected by a second unregister of the old, stale id: {}", nc));
+        }
+    }
     if let Some(l) = recs.iter().find(|r| r["k"] == "late") {
         // (a sibling registration sharing the pipe legitimately keeps writing into it)
         if l["x"].as_u64().unwrap_or(0) != 0 && !shared_any {
